@@ -247,6 +247,9 @@ func (e *Engine) ceval(x CExpr, env *Env) Value {
 				return v
 			}
 			ms := env.st.maps[b.ID]
+			if ms != nil && ms.VT != nil {
+				return e.mapLoadStruct(env.st, ms, idx.T)
+			}
 			if ms == nil || ms.VS == "" {
 				cfail("contract lookup in unsupported map")
 			}
@@ -505,6 +508,13 @@ func (e *Engine) cevalCall(n *CCall, env *Env) Value {
 			return v
 		}
 		cfail("unknown ghost variable %s", id.Name)
+	case "has":
+		// has(m, k): k is a key of the map m
+		mv, ok := arg(0).(MapV)
+		if !ok || env.st == nil || env.st.maps[mv.ID] == nil {
+			cfail("has(map, key)")
+		}
+		return Sc{app("select", env.st.maps[mv.ID].Dom, sarg(1).T), SBool}
 	case "sameRow":
 		a, ok1 := arg(0).(SliceV)
 		b, ok2 := arg(1).(SliceV)
